@@ -348,6 +348,26 @@ def check_exports(tree, start, rec, typed, nt=True, variant="to_dot", prior_abor
                 kinds.add(str(t[1]).rsplit("/", 1)[-1])
             rec.fail("rdf:triples:" + "+".join(sorted(kinds)), {"with_root": with_root, "missing": miss, "extra": extra, "start": None if start is None else f"{start.data}"})
     assert isinstance(g, rdflib.Graph)
+    # ---------------- RDF with a node_mapper that returns False for leaves ("no standard attributes for this node",
+    # it adds its own triple instead): every parent->child edge must still be there -----------------------------
+    if branch and start is not None:  # (node_mapper is an option of the node-level export)
+        leaves = {id(n) for n in branch if not w.kids[id(n)]}
+
+        def leaf_mapper(graph, graph_node, tree_node):
+            if id(tree_node) in leaves:
+                graph.add((graph_node, NUTREE_NS.name, Literal("custom:" + f"{tree_node.data}")))
+                return False
+            return None
+
+        ev += 1
+        g2 = start.to_rdf_graph(add_self=True, node_mapper=leaf_mapper)
+        exp_edges2 = set()
+        for n in branch:
+            p = w.parent[id(n)]
+            exp_edges2.add((Literal(p.data_id), NUTREE_NS.has_child, Literal(n.data_id)))
+        got_edges2 = {t for t in g2 if t[1] == NUTREE_NS.has_child}
+        if got_edges2 != exp_edges2:
+            rec.fail("rdf:has_child-edges-with-a-mapper-that-returns-False", {"missing": sorted(map(str, exp_edges2 - got_edges2))[:4], "extra": sorted(map(str, got_edges2 - exp_edges2))[:4]})
     rec.evals += ev
     return interesting
 
